@@ -22,8 +22,10 @@ enumerations), so that "key and path agree" is a theorem, not a modelling decisi
 
 Names are `List Char`; `lower` is ASCII lower-casing (the generators of K use ASCII names; Python's
 `str.lower`/`casefold` on non-ASCII names is outside the model).
+Embedded objects are values with a class name and an opaque canonical text (only `_validate_property`
+looks inside: the class name).
 Not modelled: qualifiers on instances (always stripped: IGNORE_INSTANCE_IQ_PARAM), class_origin
-(always stripped), LocalOnly (INSTANCE_RETRIEVE_LOCAL_ONLY = False), embedded objects, user providers.
+(always stripped), LocalOnly (INSTANCE_RETRIEVE_LOCAL_ONLY = False), user providers.
 -/
 import Pywbem.Proto
 import Pywbem.Generated.Store
@@ -112,12 +114,20 @@ inductive Val where
   | null
   | one (v : KV)
   | arr (xs : List (Option Scalar))
+  | emb (isCls : Bool) (cls : Name) (text : Name)   -- embedded CIMInstance / CIMClass: class name + canonical text
   deriving DecidableEq, Repr, Inhabited
 
 def normVal : Val → Val
   | .null => .null
   | .one v => .one (normKV v)
   | .arr xs => .arr (xs.map (fun o => o.map normScalar))
+  | .emb b c t => .emb b c t
+
+/-- arrays and embedded objects cannot be keybinding values (`_cim_keybinding` raises TypeError) -/
+def notScalar : Val → Bool
+  | .arr _ => true
+  | .emb _ _ _ => true
+  | _ => false
 
 /-- Python `a != b` on property values -/
 def valNe (a b : Val) : Bool := normVal a != normVal b
@@ -131,6 +141,8 @@ structure PropDecl where
   isArr : Bool
   isKey : Bool          -- `'key' in prop.qualifiers`
   dflt  : Val           -- default value of the declaration
+  embInst : Option Name := none   -- value of the EmbeddedInstance qualifier
+  embObj  : Bool := false         -- `'EmbeddedObject' in prop.qualifiers`
   deriving DecidableEq, Repr, Inhabited
 
 structure Cls where
@@ -241,11 +253,38 @@ def reqPath (ns : Name) (p : Path) : Path := { p with host := none, ns := some n
 
 /-! ### property validation (dispatcher) -/
 
+/-- mirrors pywbem_mock/_baseprovider.py: BaseProvider.is_subclass; `none` = KeyError from the class store -/
+def isSubclass (cs : List Cls) : Nat → Name → Name → Option Bool
+  | 0, _, _ => none
+  | fuel + 1, k, sup =>
+    match findCls cs k with
+    | none => none
+    | some kc =>
+      if nameEq k sup then some true
+      else match kc.super with
+        | none => (match findCls cs sup with | none => none | some _ => some false)
+        | some nxt => isSubclass cs fuel nxt sup
+
+/-- the embedded-object part of `_validate_property` (after the fix: a class that is not in the repository
+    makes the property invalid instead of raising KeyError) -/
+def embOk (cs : List Cls) (d : PropDecl) (v : Val) : Bool :=
+  match v with
+  | .emb false ecls _ =>
+    (match d.embInst with
+     | some dcls => isSubclass cs (cs.length + 1) ecls dcls == some true
+     | none => d.embObj)
+  | .emb true _ _ => d.embObj
+  | _ => true
+
+/-- type-related attributes of a property agree with its declaration -/
+def declOk (cs : List Cls) (d : PropDecl) (p : PropV) : Bool :=
+  d.ty == p.ty && d.isArr == p.isArr && embOk cs d p.val
+
 /-- mirrors pywbem_mock/_providerdispatcher.py: ProviderDispatcher._validate_property -/
-def validProp (c : Cls) (p : PropV) : Bool :=
+def validProp (cs : List Cls) (c : Cls) (p : PropV) : Bool :=
   match findDecl c p.name with
   | none => false
-  | some d => d.ty == p.ty && d.isArr == p.isArr
+  | some d => declOk cs d p
 
 /-- "Adjust the lexical case of the property names … to match … the creation class" -/
 def adjustName (c : Cls) (p : PropV) : PropV :=
@@ -260,6 +299,7 @@ def keyOfVal (n : Name) (v : Val) : Except PyExc (Name × KV) :=
   match v with
   | .null => .error .valueError
   | .arr _ => .error .typeError
+  | .emb _ _ _ => .error .typeError
   | .one k => .ok (n, k)
 
 def keyDecls (c : Cls) : List PropDecl := c.props.filter (·.isKey)
@@ -303,6 +343,7 @@ def checkEndpoint (r : Repo) (v : Val) : Option PyExc :=
                     else some (.cimError cimErrInvalidParameter)
   | .one (.sc _) => some .attributeError      -- a non-path value in a reference property: `.host` fails
   | .arr _ => some .attributeError
+  | .emb _ _ _ => some .attributeError
   | .null => none
 
 /-- first error of a list of checks -/
@@ -393,7 +434,7 @@ def stepCreate (r : Repo) (nsArg : Option Name) (inst : Inst) : Repo × Out :=
     match findCls e.classes inst.cls with
     | none => (r, errClass)
     | some c =>
-      if !(inst.props.all (validProp c)) then (r, errParam)
+      if !(inst.props.all (validProp e.classes c)) then (r, errParam)
       else
         let i : Inst := { cls := inst.cls, props := adjustNames c inst.props }
         if c.isAssoc then
@@ -415,11 +456,11 @@ def plBad (c : Cls) (pl : Option (List Name)) : Bool :=
 
 /-- key properties cannot change: `prop_cls.qualifiers.get('key') and prop_inst.value != instance[pn]`;
     `instance[pn]` raises KeyError when the stored instance lacks the property -/
-def keyCheck (c : Cls) (stored : List PropV) (p : PropV) : Option PyExc :=
+def keyCheck (cs : List Cls) (c : Cls) (stored : List PropV) (p : PropV) : Option PyExc :=
   match findDecl c p.name with
   | none => some (.cimError cimErrInvalidParameter)
   | some d =>
-    if !(d.ty == p.ty && d.isArr == p.isArr) then some (.cimError cimErrInvalidParameter)
+    if !(declOk cs d p) then some (.cimError cimErrInvalidParameter)
     else if d.isKey then
       match findProp stored p.name with
       | none => some .keyError
@@ -511,7 +552,7 @@ def stepModify (r : Repo) (path : Path) (inst : Inst) (pl : Option (List Name)) 
         | some st =>
           if plBad c pl then (r, errParam)
           else
-            match firstErr (keyCheck c st.inst.props) inst.props with
+            match firstErr (keyCheck e.classes c st.inst.props) inst.props with
             | some ex => (r, .err ex)
             | none =>
               match plKeyCheck c st.inst.props inst.props (pl.getD []) with
@@ -531,14 +572,15 @@ def stepModify (r : Repo) (path : Path) (inst : Inst) (pl : Option (List Name)) 
 
 /-! ### DeleteInstance -/
 
-/-- delete in every namespace of `nsl` the instance stored under `{path with ns}`;
-    `InMemoryObjectStore.delete` raises KeyError when it is missing -/
+/-- delete in every namespace of `nsl` the instance stored under `{path with ns}` if it is there (after the
+    fix); `get_instance_store` raises KeyError for a namespace that does not exist -/
 def deleteAll (r : Repo) (path : Path) : List Name → Option Repo
   | [] => some r
   | ns :: rest =>
     let p := { path with ns := some ns }
-    if existsIn r ns p then deleteAll (setInsts r ns (fun l => deleteInst l p)) path rest
-    else none
+    match findNs r ns with
+    | none => none
+    | some _ => deleteAll (setInsts r ns (fun l => deleteInst l p)) path rest
 
 /-- mirrors pywbem_mock/_providerdispatcher.py: ProviderDispatcher.DeleteInstance and
     pywbem_mock/_instancewriteprovider.py: InstanceWriteProvider.DeleteInstance -/
